@@ -49,6 +49,7 @@ class Ctx:
         self.level = "proof"
         self.explanation = None
         self._bodies = {}
+        self.sensitivity = None
 
     # -- access
     def body(self, name, F=None):
@@ -146,6 +147,7 @@ def finish(ctx):
             "obligation_list": [{"key": k, "ok": ok, "site": l} for k, ok, d, l in ctx.obs][:400],
             "known_findings_matched": [k for k, _ in known_hit],
             "notes": ctx.notes,
+            "sensitivity": ctx.sensitivity,
             "exhaustive": True,
         },
         "assumptions": BASE_ASSUMPTIONS + ctx.assumptions,
@@ -188,7 +190,93 @@ def main(argv):
         return 2
     ctx = Ctx(prop, tier, getattr(mod, "CONFIGS", ("A",)))
     mod.run(ctx)
+    if tier == "thorough" and not os.environ.get("VERIF_REPO"):
+        ctx.sensitivity = run_sensitivity(prop)
     return finish(ctx)
+
+
+def run_sensitivity(prop):
+    """thorough tier: besides deciding the rules on /repo, re-establish that the checker still *fires*: every registered mutation of this
+    property (hand-written one-instance mutations and confirmed sub-agent mutations) is applied to a scratch git worktree of /repo's current
+    tree (never /repo itself) and the check is run against it; the scratch worktree and its fact cache are removed afterwards.
+    A mutation whose anchor text no longer exists is skipped (reported), a missed one is reported as SENSITIVITY-LOST in the evidence."""
+    import subprocess, shutil, tempfile
+    sys.path.insert(0, os.path.join(VERIF, "selftest"))
+    try:
+        import mutations
+    except Exception as e:  # pragma: no cover
+        return {"error": str(e)}
+    hand = [m for m in mutations.MUTATIONS if prop in m["props"]]
+    sd = os.path.join(VERIF, "seeded")
+    seeded = []
+    if os.path.isdir(sd):
+        for d in sorted(os.listdir(sd)):
+            mp = os.path.join(sd, d, "meta.json")
+            if os.path.exists(mp) and json.load(open(mp)).get("property") == prop:
+                seeded.append(d)
+    if not hand and not seeded:
+        return {"mutations": 0}
+    base = tempfile.mkdtemp(prefix=f"verif-sens-{prop}-")
+    wt = os.path.join(base, "wt")
+    cache = os.path.join(base, "cache")
+
+    def sh(*a, **k):
+        return subprocess.run(a, capture_output=True, text=True, **k)
+    res = {"caught": [], "missed": [], "skipped": []}
+    try:
+        r = sh("git", "-C", facts.REPO, "worktree", "add", "--detach", wt)
+        if r.returncode:
+            return {"error": "cannot create scratch worktree: " + r.stderr.strip()[:200]}
+        d = sh("git", "-C", facts.REPO, "diff", "HEAD").stdout
+        if d.strip():
+            subprocess.run(["git", "-C", wt, "apply"], input=d, text=True)
+        base_state = sh("git", "-C", wt, "diff").stdout
+        env = dict(os.environ, VERIF_REPO=wt, VERIF_CACHE=cache, VERIF_KEEP_TARGET="1", VERIF_EVIDENCE_DIR=os.path.join(base, "ev"), VERIF_TIER="quick")
+
+        def run_check():
+            rr = sh(os.path.join(VERIF, "bin", "check"), prop, "--tier", "quick", env=env)
+            out = rr.stdout + rr.stderr
+            return rr.returncode == 1 and f"VIOLATION property={prop}" in out and "BROKEN" not in out
+
+        def reset():
+            sh("git", "-C", wt, "checkout", "--", ".")
+            if base_state.strip():
+                subprocess.run(["git", "-C", wt, "apply"], input=base_state, text=True)
+        for m in hand:
+            edits = m.get("edits") or [(m["file"], m["find"], m["replace"])]
+            ok = True
+            for f, find, rep in edits:
+                pth = os.path.join(wt, f)
+                try:
+                    cur = open(pth).read()
+                except OSError:
+                    ok = False
+                    break
+                if cur.count(find) != 1:
+                    ok = False
+                    break
+                open(pth, "w").write(cur.replace(find, rep))
+            if not ok:
+                res["skipped"].append(m["name"])
+                reset()
+                continue
+            (res["caught"] if run_check() else res["missed"]).append(m["name"])
+            reset()
+        for dname in seeded:
+            r = sh("git", "-C", wt, "apply", os.path.join(sd, dname, "patch.diff"))
+            if r.returncode:
+                res["skipped"].append(dname)
+                reset()
+                continue
+            (res["caught"] if run_check() else res["missed"]).append(dname)
+            reset()
+    finally:
+        sh("git", "-C", facts.REPO, "worktree", "remove", "--force", wt)
+        shutil.rmtree(base, ignore_errors=True)
+    for mname in res["missed"]:
+        print(f"SENSITIVITY-LOST property={prop} mutation={mname} (the check no longer reports this known breakage)")
+    res["mutations"] = len(hand) + len(seeded)
+    return res
 
 
 if __name__ == "__main__":
